@@ -307,7 +307,12 @@ func TestProp(t *testing.T) {
 				return string(b)
 			}
 			var keys []string
-			for n := rng.Range(2, 12); n > 0; n-- {
+			nk := rng.Range(2, 12)
+			bigCase := i%250 == 249 // hundreds of keys, long shared prefixes
+			if bigCase {
+				nk = rng.Range(150, 700)
+			}
+			for n := nk; n > 0; n-- {
 				switch {
 				case len(keys) > 0 && rng.Chance(1, 3): // extension of an existing key
 					keys = append(keys, keys[rng.Intn(len(keys))]+rs(2))
@@ -321,7 +326,14 @@ func TestProp(t *testing.T) {
 				}
 			}
 			pset := map[string]bool{"": true}
-			for _, k := range keys {
+			pk := keys
+			if bigCase { // probe around a sample of the keys only
+				pk = nil
+				for j := 0; j < 25; j++ {
+					pk = append(pk, keys[rng.Intn(len(keys))])
+				}
+			}
+			for _, k := range pk {
 				for j := 1; j <= len(k); j++ {
 					pset[k[:j]] = true
 				}
@@ -331,7 +343,7 @@ func TestProp(t *testing.T) {
 			for j := 0; j < 6; j++ {
 				pset[rs(4)] = true
 			}
-			c := Case{Full: true, Probes: []string{}, Undrained: i%2 == 1}
+			c := Case{Full: !bigCase, Probes: []string{}, Undrained: i%2 == 1}
 			for _, k := range keys {
 				c.Puts = append(c.Puts, hx(k))
 			}
